@@ -1,6 +1,6 @@
 (* Correspondence cases for C18: what the implementation returned, compared with the model. *)
 From NG Require Export Common.Tactics Common.HarnessLib Codec.Bigint.
-From NG Require Import Common.Sha256 Codec.Base58 Codec.Fixed Codec.UintStr Codec.Merkle Codec.Multisig.
+From NG Require Import Common.Sha256 Codec.Base58 Codec.Fixed Codec.UintStr Codec.Merkle Codec.Multisig Codec.Nep2.
 Open Scope Z_scope.
 
 Definition zlist_eqb := list_eqb Z.eqb.
@@ -31,7 +31,9 @@ Inductive case :=
 | CUintStr (u : list Z) (be le js : list Z)                      (* StringBE, StringLE, JSON text without quotes *)
 | CUintDec (n : Z) (mode : Z) (s : list Z) (impl : option (list Z)) (* 0 DecodeStringBE, 1 DecodeStringLE, 2 JSON *)
 | CMerkle (hs : list (list Z)) (calc : list Z) (tree : option (list Z)) (* CalcMerkleRoot, NewMerkleTree(..).Root() *)
-| CMultisig (keys sigs : list Z) (impl : bool).                  (* CHECKMULTISIG: key ids, signer id of each signature (or -1), every run returned impl *)
+| CMultisig (keys sigs : list Z) (impl : bool)
+| CNep2Frame (addr body : list Z) (impl : list Z)                (* NEP2Encrypt returned impl for a key whose address text is addr; body = the 32 encrypted bytes (independent scrypt + AES) *)
+| CNep2Unframe (s : list Z) (impl : bool).                       (* NEP2Decrypt got past CheckDecode and validateNEP2Format on s *)                  (* CHECKMULTISIG: key ids, signer id of each signature (or -1), every run returned impl *)
 
 Definition check_case (c : case) : N :=
   match c with
@@ -89,4 +91,12 @@ Definition check_case (c : case) : N :=
       let par (sched : list nat) := option_eqb Bool.eqb (par_check Z.eqb sched keys sigs) (Some impl) in
       let m := par [] && par [1; 1; 1; 1; 1; 1; 1; 1]%nat && par [0; 1; 0; 1; 1; 0; 1; 0]%nat in
       code_of m (Bool.eqb spec impl)
+  | CNep2Frame addr body impl =>
+      if negb (bytes_okb addr && bytes_okb body && (length body =? 32)%nat) then 3%N else
+      let ah := checksumZ addr in
+      let m := zlist_eqb (nep2_frame checksumZ ah body) impl in
+      (* specification: reads back as the frame of this address hash and body *)
+      code_of m (option_eqb (fun a b => zlist_eqb (fst a) (fst b) && zlist_eqb (snd a) (snd b)) (nep2_unframe checksumZ impl) (Some (ah, body)))
+  | CNep2Unframe s impl =>
+      let m := Bool.eqb (match nep2_unframe checksumZ s with Some _ => true | None => false end) impl in code_of m m
   end.
